@@ -12,6 +12,7 @@ import (
 	"fmt"
 	"io"
 	"net"
+	"os"
 	"strconv"
 	"strings"
 	"sync"
@@ -135,19 +136,13 @@ func (b *Backend) OpenConns() int64 { return b.openConns.Load() }
 func NewBackend(name, typ string, side bool) *Backend {
 	b := &Backend{Name: name, Type: typ, HealthPath: "/health", ModelsPath: "/v1/models", stall: make(chan struct{}), reserveFd: -1}
 	b.plan = func(*Request) Behaviour { return OK(`{"ok":true,"backend":"` + name + `"}`) }
-	ln, err := net.Listen("tcp", "127.0.0.1:0")
-	if err != nil {
-		panic(err)
-	}
+	ln := ListenOwn()
 	b.ln = ln
 	b.Port = ln.Addr().(*net.TCPAddr).Port
 	b.wg.Add(1)
 	go b.acceptLoop(ln, false)
 	if side {
-		sl, err := net.Listen("tcp", "127.0.0.1:0")
-		if err != nil {
-			panic(err)
-		}
+		sl := ListenOwn()
 		b.sideLn = sl
 		b.SidePort = sl.Addr().(*net.TCPAddr).Port
 		b.wg.Add(1)
@@ -599,4 +594,43 @@ func ModelsFor(typ string, names ...string) []byte {
 		return []byte(sb.String())
 	}
 	return OpenAIModels(names...)
+}
+
+// ---------------------------------------------------------------- port allocation
+//
+// Worker processes run side by side and create and drop listeners at a high rate. Ports taken from
+// the kernel's ephemeral range get recycled between processes (and collide with outbound source
+// ports), which lets one worker's traffic reach another worker's listener. Every worker therefore
+// allocates from its own slice of a range below the ephemeral one.
+
+var (
+	portMu   sync.Mutex
+	portBase = 20000
+	portSpan = 700
+	portNext = 0
+)
+
+func init() {
+	for i, a := range os.Args {
+		if (a == "-shard" || a == "--shard") && i+1 < len(os.Args) {
+			var sh, n int
+			fmt.Sscanf(os.Args[i+1], "%d/%d", &sh, &n)
+			portBase = 20000 + (sh%16)*portSpan
+		}
+	}
+}
+
+// ListenOwn listens on the next free port of this worker's private range.
+func ListenOwn() net.Listener {
+	portMu.Lock()
+	defer portMu.Unlock()
+	for tries := 0; tries < 2*portSpan; tries++ {
+		p := portBase + portNext%portSpan
+		portNext++
+		ln, err := net.Listen("tcp", fmt.Sprintf("127.0.0.1:%d", p))
+		if err == nil {
+			return ln
+		}
+	}
+	panic("stack: no free port in the worker's range")
 }
